@@ -21,6 +21,34 @@ def pinkey(p):
     return ("i", id(p))
 
 
+HOOKS = ["create_netlist", "create_library", "create_definition", "create_port", "create_cable",
+         "create_instance", "cable_add_wire", "cable_remove_wire", "definition_add_port",
+         "definition_remove_port", "definition_add_child", "definition_remove_child",
+         "definition_add_cable", "definition_remove_cable", "instance_reference",
+         "library_add_definition", "library_remove_definition", "netlist_top_instance",
+         "netlist_add_library", "netlist_remove_library", "port_add_pin", "port_remove_pin",
+         "wire_connect_pin", "wire_disconnect_pin", "dictionary_set", "dictionary_delete",
+         "dictionary_pop"]
+
+
+def make_partial_listener(selectors):
+    """a passive listener that overrides only a drawn subset of the hooks (counts its calls)"""
+    from spydrnet.callback.callback_listener import CallbackListener
+
+    names = sorted({HOOKS[k % len(HOOKS)] for k in selectors})
+    ns = {}
+    for h in names:
+        def f(self, *a, _h=h, **kw):
+            self.calls += 1
+        ns[h] = f
+
+    def init(self):
+        self.calls = 0
+        CallbackListener.__init__(self)
+    ns["__init__"] = init
+    return type("Partial", (CallbackListener,), ns)(), names
+
+
 def make_listener_class():
     from spydrnet.callback.callback_listener import CallbackListener
     import spydrnet as sdn
@@ -366,10 +394,13 @@ class C19(Prop):
                          top="maybe", top_modes=["standalone", "definition", "child"], share=True,
                          noref_children=True, alphabet=["a", "A", "b", "c", "d"])
         base = c01.case_strategy(WEIGHTS, 30 if tier == "quick" else 80, cfg=cfg)
+        partial = st.one_of(st.none(), st.fixed_dictionaries({
+            "on": st.integers(0, 15), "len": st.integers(0, 25),
+            "hooks": st.lists(st.integers(0, 27), min_size=1, max_size=6, unique=True)}))
         return st.tuples(base, st.one_of(st.none(), st.integers(0, 20)), st.integers(0, 30),
-                         st.booleans()).map(
+                         st.booleans(), partial).map(
             lambda t: dict(t[0], l2_on=t[1], l2_off=t[1] + t[2] if t[1] is not None else None,
-                           l2_first=t[3]))
+                           l2_first=t[3], l3=t[4]))
 
     def run(self, case):
         res = Result()
@@ -386,6 +417,7 @@ class C19(Prop):
                 res.violate("C19:mirror-diverged-during-build:%s" % d0[0][0], d0[0][1])
             it = ops.Interpreter(U, [mon])
             r2 = None
+            p3, p3_names, p3_gone, p3_calls = None, [], False, 0
             for i, op in enumerate(case["ops"]):
                 if res.violations:
                     break
@@ -400,15 +432,40 @@ class C19(Prop):
                         r2 = Rec(U)
                         recs.append(("L2", r2))
                     res.label("second-listener")
+                l3 = case.get("l3")
+                if l3 and l3["on"] == i and p3 is None:
+                    try:
+                        p3, p3_names = make_partial_listener(l3["hooks"])
+                    except Exception as e:  # noqa
+                        res.violate("C19:registering-a-partial-listener-raises:%s" % type(e).__name__,
+                                    "%r" % (e,))
+                        break
+                    res.label("partial-listener")
+                if l3 and p3 is not None and not p3_gone and l3["on"] + l3["len"] == i:
+                    try:
+                        p3.deregister_all_listeners()
+                    except Exception as e:  # noqa
+                        res.violate("C19:removing-a-partial-listener-raises:%s" % type(e).__name__,
+                                    "hooks %r: %r" % (p3_names, e))
+                        break
+                    p3_gone = True
+                    p3_calls = p3.calls
                 if r2 is not None and case.get("l2_off") == i:
                     r2.deregister_all_listeners()
                     recs[:] = [x for x in recs if x[1] is not r2]
                     r2 = None
                     res.label("listener-removed-mid-history")
                 it.step(op)
+                if p3_gone and p3.calls != p3_calls:
+                    res.violate("C19:removed-listener-still-called", "hooks %r" % (p3_names,))
             trace1 = [(a, b) for a, b, _ in it.trace]
             final1 = normalized(U) if not res.violations else None
         finally:
+            if "p3" in locals() and p3 is not None and not p3_gone:
+                try:
+                    p3.deregister_all_listeners()
+                except Exception:  # noqa (reported above when it happens inside the history)
+                    pass
             for _, r in recs:
                 try:
                     r.deregister_all_listeners()
